@@ -68,7 +68,7 @@ def run(ck):
     from pygaps.parsing.json import isotherm_from_json, isotherm_to_json
     rng = ck.rng
     thorough = ck.tier == "thorough"
-    n = 600 if thorough else 90
+    n = ck.n(90, 600)
     lines, plan = [], []
     second = []          # (content json, id) to be rebuilt in another process
     for i in range(n):
